@@ -323,14 +323,25 @@ def _container_visit(fi, body, ks, param, acc, fname):
             else:
                 return None, "dict arm does not iterate over .values() of the value"
         else:
+            index_form = None
             if q.src(it) == param:
                 direction = "forward"
             elif isinstance(it, ast.Call) and q.call_name(it) == "reversed" and q.src(it.args[0]) == param:
                 direction = "reverse"
             elif q.src(it) == "%s[::-1]" % param:
                 direction = "reverse"
+            elif q.src(it) == "range(len(%s) - 1, -1, -1)" % param:
+                direction, index_form = "reverse", True
+            elif q.src(it) in ("range(len(%s))" % param, "range(0, len(%s))" % param):
+                direction, index_form = "forward", True
+            elif q.src(it) == "reversed(range(len(%s)))" % param:
+                direction, index_form = "reverse", True
             else:
                 return None, "unrecognised iteration `%s`" % q.src(it)
+            if index_form:
+                if not (len(lp.body) == 1 and isinstance(lp.body[0], ast.Expr) and rec_on(lp.body[0].value, lambda e: q.src(e) == "%s[%s]" % (param, lp.target.id))):
+                    return None, "the loop body is not exactly the recursive call on the indexed element"
+                return direction, ""
         if not (len(lp.body) == 1 and isinstance(lp.body[0], ast.Expr) and rec_on(lp.body[0].value, lambda e: isinstance(e, ast.Name) and e.id == lp.target.id)):
             return None, "the loop body is not exactly the recursive call on the element"
         return direction, ""
